@@ -3,7 +3,7 @@ from typing import TypeVar
 
 import reactivex
 from reactivex import Observable, abc
-from reactivex.disposable import CompositeDisposable, Disposable
+from reactivex.disposable import Disposable
 
 _T = TypeVar("_T")
 
@@ -41,12 +41,21 @@ def using_(
 
             source = observable_factory(resource)
         except Exception as exception:  # pylint: disable=broad-except
-            d = reactivex.throw(exception).subscribe(observer, scheduler=scheduler)
-            return CompositeDisposable(d, disp)
+            source = reactivex.throw(exception)
 
-        return CompositeDisposable(
-            source.subscribe(observer, scheduler=scheduler), disp
-        )
+        try:
+            subscription = source.subscribe(observer, scheduler=scheduler)
+        except Exception:
+            disp.dispose()
+            raise
+
+        def dispose() -> None:
+            try:
+                subscription.dispose()
+            finally:
+                disp.dispose()
+
+        return Disposable(dispose)
 
     return Observable(subscribe)
 
